@@ -989,7 +989,9 @@ def run(rep: C.Report, tier: str) -> int:
         else:
             sel_fail += fails
             sel_fail_pinned += [keys[j] for j in res[1] if j < len(keys)]
-    rep.coverage["traces_validated_against_impl"] = n_checked
+    rep.coverage["traces_validated_against_impl"] = (sum(int(v) for v in n_checked.values())
+                                                      if isinstance(n_checked, dict) else int(n_checked))
+    rep.coverage["traces_validated_breakdown"] = n_checked
     rep.coverage["correspondence_disagreements"] = {"selector": len(sel_fail)}
 
     lap('coq-case-files')
